@@ -482,3 +482,15 @@ Definition w_single : pattern := [NAt AtBeg; cls_az; NAt AtEnd].                
 Definition w_ok : pattern := [NAt AtBegStr; NRep 1 MAXREPEAT [cls_az]; NAt AtEndStr].       (* \A[a-z]+\Z *)
 Definition w_ok_multi : pattern :=
   [NAt AtBeg; NLit 43; NRep 1 MAXREPEAT [NIn false [CCat false 0]]; NRep 0 3 [NLit 120]; NAt AtEnd].  (* ^\+\d+x{0,3}$ *)
+
+(* ------------------------------------------------------------------------------------ *)
+(* 6. converter.py:57-79 rewrite_properties / forbid_properties (request schemas)         *)
+(*    The readOnly property names are removed from properties / required and the schema   *)
+(*    gets  not: {required: [all of them]}.  Below: the Draft 4 meaning of that keyword   *)
+(*    on an object with the given keys, and what OpenAPI asks for.                        *)
+(* ------------------------------------------------------------------------------------ *)
+Definition has_key (k : str) (keys : list str) : bool := existsb (str_eqb k) keys.
+(* names = the list forbid_properties writes (non-empty: it is only called when something is forbidden) *)
+Definition forbid_valid (names keys : list str) : bool := negb (forallb (fun n => has_key n keys) names).
+Definition sends_no_readonly (names keys : list str) : bool := negb (existsb (fun n => has_key n keys) names).
+Definition readonly_le1 (names : list str) : bool := match names with [_] => true | _ => false end.
